@@ -32,3 +32,28 @@ class Outer:
     def merge(self, k, r):
         self.inner.n += k
         self.inner.r += r
+
+
+class Counter:
+    """The helper changes an input of the cache; one of its callers forgets to invalidate."""
+
+    def __init__(self):
+        self.k = 0
+        self._twice = None
+
+    def _bump(self):
+        self.k += 1
+
+    def step(self):
+        self._bump()
+        self._twice = None
+
+    def leap(self):
+        self._bump()
+        self._bump()
+
+    @property
+    def twice(self):
+        if self._twice is None:
+            self._twice = 2 * self.k
+        return self._twice
